@@ -10,6 +10,8 @@ Handlers for the Krylov solvers GMRES / FGMRES / LGMRES / IDR(s) / BiCGStab(L) (
     solve_gmres      side M maxiter tol abstol ns                       A PREC f x0
     solve_fgmres     M maxiter tol abstol ns                            A PREC f x0
     solve_lgmres     side M K always_reset maxiter tol abstol ns        A PREC f x0
+    lgmres_vs_gmres  side M K always_reset maxiter tol abstol ns        A PREC f x0     the result of `solve_lgmres`; the harness
+                     additionally runs the real `gmres` with restart length `M + K` (C05f `lgmres_first_cycle_refines_gmres`)
     solve_idrs       s omega smoothing replacement maxiter tol abstol ns   A PREC f x0  RAW
     solve_bicgstabl  side L delta convex maxiter tol abstol ns          A PREC f x0
     hist_gmres | hist_fgmres | hist_lgmres | hist_bicgstabl   <params as above>  n k (A PREC f x0)^k
@@ -85,6 +87,7 @@ def handle (op : String) (args : List String) : Option String :=
   | "solve_gmres" => solveOp pGMRESPrm (fun p => decide (1 ≤ p.M)) gmresStep (fun _ n => GMRES.Work.fresh n) args
   | "solve_fgmres" => solveOp pFGMRESPrm (fun p => decide (1 ≤ p.M)) fgmresStep (fun _ n => FGMRES.Work.fresh n) args
   | "solve_lgmres" => solveOp pLGMRESPrm (fun p => decide (1 ≤ p.M)) lgmresStep (fun _ n => LGMRES.Work.fresh n) args
+  | "lgmres_vs_gmres" => solveOp pLGMRESPrm (fun p => decide (1 ≤ p.M)) lgmresStep (fun _ n => LGMRES.Work.fresh n) args
   | "hist_gmres" => histOp pGMRESPrm (fun p => decide (1 ≤ p.M)) gmresStep (fun _ n => GMRES.Work.fresh n) args
   | "hist_fgmres" => histOp pFGMRESPrm (fun p => decide (1 ≤ p.M)) fgmresStep (fun _ n => FGMRES.Work.fresh n) args
   | "hist_lgmres" => histOp pLGMRESPrm (fun p => decide (1 ≤ p.M)) lgmresStep (fun _ n => LGMRES.Work.fresh n) args
